@@ -83,6 +83,15 @@ def gen_groups(ctx):
               nesterov=bool(rng.below(2)))
     groups.append(dict(opt="tf_shampoo", s=s, p=p, starts=starts, shapes=shapes, kw=kw,
                        seed=rng.next() % (1 << 31)))
+  # a huge finite gradient (square overflows float32) on a step that is neither a statistics nor a
+  # preconditioner step: the stored statistics / preconditioners must not move (added after a seeded
+  # change that replaced the select by arithmetic masking was missed)
+  for opt, s, p, t_sp in (("tf_shampoo", 2, 3, 1), ("tf_shampoo", 3, 2, 5), ("ds", 2, 2, 3)):
+    kw = dict(graft_type="SGD", nesterov=False)
+    if opt == "tf_shampoo":
+      kw["momentum"] = 0.0
+    groups.append(dict(opt=opt, s=s, p=p, starts=[0], shapes=shapes, kw=kw, seed=rng.next() % (1 << 31),
+                       spike=dict(t=t_sp, scale=3e19), graft_reference=False))
   # Tearfree Sketchy (one frequency)
   for f in (rng.shuffle([1, 2, 3, 4, 5])[:4] if quick else [1, 2, 3, 4, 5] * 3):
     kw = dict(graft_type=rng.choice(["SGD", "RMSPROP"]), momentum=rng.choice([0.0, 0.9]),
@@ -266,7 +275,10 @@ def judge_group(ctx, r, stats):
             run["partial"][t],)))
     # which preconditioners does the update use
     lag_bad = []
-    for t, d in enumerate(run["dep_stored"]):
+    # spike groups: the update itself overflows from the spike on, so only the state-leaf contract
+    # (which leaves change, and on which gradient they depend) is decided there
+    state_only = bool(g.get("spike"))
+    for t, d in enumerate([] if state_only else run["dep_stored"]):
       is_p = (t % iv[t] == 0)
       if t < k and d:
         bad.append((t, "update before the start step %d depends on the preconditioners" % k))
@@ -276,7 +288,7 @@ def judge_group(ctx, r, stats):
         lag_bad.append((t, "refresh step: update %s the stored preconditioners (mode %s)" % (
             "uses" if d else "ignores", "sharded" if sharded else "replicated")))
     # warm-up: decomposition against the never-starting and always-preconditioning runs
-    if refI is not None and "upd" in refI and ref0 is not None and "upd" in ref0:
+    if not state_only and refI is not None and "upd" in refI and ref0 is not None and "upd" in ref0:
       decomposable = g["opt"] == "ds" or g.get("kw", {}).get("momentum", 0.9) == 0.0
       for t in range(T):
         eqI = run["upd"][t] == refI["upd"][t]
@@ -298,9 +310,9 @@ def judge_group(ctx, r, stats):
     mism = []
     if m.get("trace") != "-1":
       mism.append("chk_trace first differing step = %s" % m.get("trace"))
-    if m.get("dep") != "true" or lag_bad:
+    if (m.get("dep") != "true" and not state_only) or lag_bad:
       mism.append("chk_dep = %s %s" % (m.get("dep"), lag_bad[:2]))
-    if "select" in m and m["select"] != "true":
+    if "select" in m and m["select"] != "true" and not state_only:
       mism.append("chk_select = %s" % m["select"])
     if mism:
       out.append(("correspondence-broken", dict(
